@@ -407,6 +407,13 @@ def gen_store_relations(prop, lang, rnd, titles, toks, ncases, big=False):
             if i == n // 2 and rnd.random() < 0.5:
                 c.search(sid, "")              # the list of top-rated records was asked for while the store was filling
         qs = [random_query(lang, rnd, recs, toks) for _ in range(3)] + ([""] if rnd.random() < 0.5 else [])
+        # a short complete word of one record followed by less than half of a long word of another record: the second
+        # record matches only through the half-typed word (the filter rejects it) yet may score more characters
+        shorts = sorted({x for t in recs for x in t.split() if 1 <= len(x) <= 3 and x.isalnum()})
+        longs = sorted({x for t in recs for x in t.split() if len(x) >= 7 and x.isalnum()})
+        if shorts and longs:
+            lw = rnd.choice(longs)
+            qs.append(rnd.choice(shorts) + " " + lw[:max(2, len(lw) // 2 - 1)])
         if big:
             rare = [x for t in recs for x in t.split() if x.lower() != w.lower() and len(x) >= 3]
             qs = [w, w[:3]] + qs[:1] + ([w + " " + rnd.choice(rare), rnd.choice(rare) + " " + w] if rare else [])
@@ -445,6 +452,8 @@ def gen_histories(prop, lang, rnd, titles, toks, ncases, length=14, adversarial=
         # three regimes: default limit; a small limit that the store soon exceeds; many records sharing a word
         # under a limit of 1-2 (more than 10 x limit candidates, so the index cap and the chunked selection matter)
         regime = case_no % 3
+        if prop == "C05" and case_no % 3 == 0:
+            regime = 2
         small_ratings = prop == "C12" or regime == 1 or rnd.random() < 0.3
         shared = None
         if regime >= 1:
@@ -466,6 +475,8 @@ def gen_histories(prop, lang, rnd, titles, toks, ncases, length=14, adversarial=
                     t = shared + " " + t
                 if prop == "C12" and held and rnd.random() < 0.3:
                     t = rnd.choice(held)[0]  # duplicate title
+                if prop == "C12" and rnd.random() < 0.15:
+                    t = rnd.choice(["", "???", "-- --", "$", "\u0000", "!"])      # a title without any word
                 rating = rnd.randint(0, 3) if small_ratings else rnd.randint(0, 2 ** 31 - 1)
                 c.add(sid, nid, t, rating)
                 held.append((t, nid))
@@ -1380,5 +1391,27 @@ def gen_gate_cases(rnd, tier):
             if not v:
                 continue
             c.op(op="gate", r=w, q=v, qfin=rnd.random() < 0.4)
+        cases.append(c)
+    return cases
+
+
+def gen_long_word_cases(prop, lang, rnd, ncases):
+    """C19 / C01: record words longer than the initial matrix capacity of 20, first met by a short unfinished query on
+    a matrix that has never grown (every case starts on a fresh thread), then by longer and finished queries, then short
+    words again"""
+    cases = []
+    letters = script_letters(lang)
+    fixed = ["counterrevolutionaries", "donaudampfschifffahrtsgesellschaft", "electroencephalography", "pneumonoultramicroscopicsilicovolcanoconiosis"]
+    for k in range(ncases):
+        w = rnd.choice(fixed) if k % 2 == 0 else rand_word(rnd, letters, rnd.choice([21, 22, 23, 30, 36, 50, 70]), 80)[:rnd.choice([21, 22, 23, 30, 36, 50, 70])]
+        c = Case(prop, "long-word", lang=lang)
+        sid = c.new_store(lang)
+        c.add(sid, 1, "Erste " + w + " Wien", 1)
+        c.add(sid, 2, w[:8] + " kurz", 2)
+        plan = [w[:rnd.randint(3, 12)], w[:rnd.randint(13, 20)], "x" + w[:6], w[:len(w) - 1], w, w + " ", w[:5] + " ", w[:4], w[1:15], w[:18] + "q"]
+        if k % 3 == 0:
+            rnd.shuffle(plan)
+        for q in plan:
+            c.search(sid, q)
         cases.append(c)
     return cases
